@@ -274,6 +274,10 @@ class SSHChannel(Generic[AnyStr], SSHPacketHandler):
         self._recv_buf_len = 0
         self._recv_paused = False
 
+        # Forget a partial character, as the rest of it won't be decoded
+        if self._decoder:
+            self._decoder.reset()
+
         # If recv is close_pending, we know send is already closed
         if self._recv_state == 'close_pending':
             self._recv_state = 'closed'
